@@ -274,8 +274,14 @@ PLANS = {
     "C02": c02,
 }
 
+HOOK_COMMITS = ["37e5a42"]
+
 META = {
     "C01": {
+        "required_paths": {
+            "c01:noncompact": ["parse.fast", "parse.fast-disguised", "parse.lemire", "parse.moderate-ok", "parse.slow", "parse.digit-comp-positive", "parse.digit-comp-negative", "parse.many-digits"],
+            "c01:compact": ["parse.fast", "parse.bellerophon", "parse.slow", "parse.digit-comp-positive", "parse.digit-comp-negative", "parse.many-digits"],
+        },
         "rule": "cases = decimal literals rendered (random point position, zeros, sign, exponent spelling) from: the n-digit "
         "neighbours (n around 17..21, 9, 40+) of the halfway point above >=5 floats of EVERY binade of f64 and f32 incl. "
         "0/min-subnormal and MAX/overflow, exact ties with far-away sticky digits, fast-path limits, zero runs to 2000+, exponent sweep "
@@ -289,6 +295,7 @@ META = {
         ],
     },
     "C02": {
+        "required_paths": {"c02": ["write.decimal", "write.scientific", "write.positional-positive-exponent", "write.positional-negative-exponent"]},
         "rule": "floats = f32 bit patterns on a seeded stride (quick: every 61st; thorough: all 2^32, exhaustive), every f64/f32 binade x "
         "{0, all-ones, 1, single bits, low patterns, random} mantissas with both signs, the neighbours of every short decimal halfway point "
         "(interval-endpoint class), integers < 200000, powers of ten +-3 ulp, integer-valued doubles in [2^53,2^77), few-bit mantissas, "
@@ -325,6 +332,10 @@ META = {
         ],
     },
     "C05": {
+        "required_paths": {
+            "c05:pow2": ["parse.binary", "parse.slow-binary", "parse.many-digits"],
+            "c05:radix": ["parse.bellerophon", "parse.slow", "parse.digit-comp-positive", "parse.digit-comp-negative", "parse.byte-comp"],
+        },
         "rule": "formats = all 35 same-base radices (exponent digits in the radix) + decimal/other exponent-digit radices for 2,3,12,16,36 + "
         "the mixed pairs 4/2, 8/2, 16/2, 32/2, 16/4 (exponent radix 10, 16, 4, 2); per format the C01 generator in that radix: n-digit "
         "neighbours of the halfway point above floats of every (quick: every 2nd f64) binade incl. 0/denormal-min and MAX/overflow, exact "
@@ -334,6 +345,7 @@ META = {
         "assumptions": ["exponent character '^' (and 'p' for the C hex-float layout 16/2/10)", "oracle as in C01"],
     },
     "C06": {
+        "required_paths": {"c06": ["write.binary", "write.hex", "write.scientific", "write.positional-positive-exponent", "write.positional-negative-exponent"]},
         "rule": "formats = radix 2,4,8,16,32 with exponent base = radix, the mixed pairs 4/2 8/2 16/2 32/2 16/4 and several exponent-digit "
         "radices (decimal, 16, 4, 2); notation variants: default breaks, breaks +-1 (exponent notation), breaks +-1200 (positional); values: "
         "every binade x {0, all-ones, 1, all-ones-1, random} mantissas, single-bit mantissas across binades (every residue of the binary "
@@ -344,6 +356,7 @@ META = {
         "assumptions": ["exponent character '^' ('p' for 16/2/10)", "oracle as in C01"],
     },
     "C07": {
+        "required_paths": {"c06": ["write.radix", "write.scientific", "write.positional-positive-exponent", "write.positional-negative-exponent"]},
         "rule": "formats = the 29 non-decimal non-power-of-two radices (+ decimal / other exponent-digit radix variants); the C06 value and "
         "notation workload plus r^k, r^k +- 1 ulp, (r^k-1)/r^k carry chains, integers 0..4096 (thorough 65536), random integers below 2^53/2^24. "
         "Judged: well-formed (digits < radix, <= 1 point, <= 1 exponent in the exponent radix, ASCII), accepted in full by lexical's parser "
@@ -439,6 +452,7 @@ META = {
         "assumptions": [],
     },
     "C19": {
+        "required_paths": {"c01:noncompact": ["parse.fast", "parse.lemire", "parse.moderate-ok"], "c01:compact": ["parse.bellerophon"], "c05:radix": ["parse.bellerophon", "parse.binary"]},
         "rule": "the C01 (decimal) and C05 (all radix formats) workloads parsed with lossy(true): must accept with the full count, never NaN, "
         "correct sign, and be the correctly rounded float or one of its two neighbours (exact oracle); zero and infinity results and exact "
         "zero inputs must be unchanged. Accept/reject/count/error equality with lossy(false) on hostile inputs is checked by the C11 executor.",
